@@ -49,12 +49,28 @@ def cli_execute(argv):
 
 
 def create(route, path, outfile, piece_length=None, progress=1, announce=None, url_list=None,
-           httpseeds=None, private=False, source=None, comment=None, align=False, cli_prefix=()):
-    """Create a metafile through one of the routes; returns Outcome with raw bytes."""
+           httpseeds=None, private=False, source=None, comment=None, align=False, cli_prefix=(), swallowed=None,
+           magnet=False):
+    """Create a metafile through one of the routes; returns Outcome with raw bytes.
+    swallowed: None | "announce" | "url_list" | "httpseeds" - the content path is not given on its own but as the
+    last value of that list-valued option (the documented recovery in MetaFile.__init__)."""
     cli, commands, edit, rebuild, recheck, torrent, utils = _mods()
+    if swallowed:
+        base = {"announce": announce, "url_list": url_list, "httpseeds": httpseeds}[swallowed]
+        if swallowed == "announce" and not base:
+            base = ["http://tracker.invalid/announce"]
+        base = list(base or []) + [path]
+        if swallowed == "announce":
+            announce = base
+        elif swallowed == "url_list":
+            url_list = base
+        else:
+            httpseeds = base
     try:
         if route in LIB_ROUTES:
             kw = dict(path=path, outfile=outfile, progress=progress, private=private, align=align)
+            if swallowed:
+                del kw["path"]
             if piece_length is not None:
                 kw["piece_length"] = piece_length
             if announce:
@@ -91,13 +107,20 @@ def create(route, path, outfile, piece_length=None, progress=1, announce=None, u
                 argv += ["--source", source]
             if comment is not None:
                 argv += ["--comment", comment]
-            argv.append(path)
+            if magnet:
+                argv.append("--magnet")
+            if not swallowed:
+                argv.append(path)
+            groups = []
             if announce:
-                argv += ["--announce"] + list(announce)
+                groups.append(("announce", ["--announce"] + list(announce)))
             if url_list:
-                argv += ["--web-seed"] + list(url_list)
+                groups.append(("url_list", ["--web-seed"] + list(url_list)))
             if httpseeds:
-                argv += ["--http-seed"] + list(httpseeds)
+                groups.append(("httpseeds", ["--http-seed"] + list(httpseeds)))
+            groups.sort(key=lambda g: g[0] == swallowed)        # the swallowing flag goes last
+            for _, g in groups:
+                argv += g
             oc = cli_execute(argv)
             if not oc.ok:
                 return oc
